@@ -337,7 +337,6 @@ pub fn explore(ctx: &Ctx, obs: &Observer) {
                 if !vs.is_empty() && report(ctx, vs, lgu, &ops(), pool) {
                     return Step::Stop;
                 }
-                obs(ctx, &n, &|| replay_json(lgu, &ops(), pool));
                 Step::Next(n)
             },
             |s: &UState| (s.ref_lg, s.ref_m.clone()),
@@ -350,6 +349,9 @@ pub fn explore(ctx: &Ctx, obs: &Observer) {
                     &format!("union lg_k={lgu}: the same inputs in two orders (or with repetition) give different results"),
                     json!({"kind":"cpc_union_two_orders","a":replay_json(lgu,&a,pool),"b":replay_json(lgu,&b,pool)}),
                 );
+            },
+            |s: &UState, path: &[u16]| {
+                obs(ctx, s, &|| replay_json(lgu, &path.iter().map(|&p| reduced[p as usize]).collect::<Vec<usize>>(), pool));
             },
         );
         ctx.add_states(stats.states);
